@@ -435,6 +435,18 @@ static uint64_t dbits(double d) { return *(uint64_t *)&d; }
 void h_fop(void)
 {
     in_fa = nondet_double(); in_fb = nondet_double(); in_a = nondet_i64(); in_b = nondet_i64();
+#ifdef VERIF_FMASK
+    /* bounded stand-in for the arithmetic operators: both operands keep sign, the full 11-bit exponent (so zeros, subnormals,
+       infinities and NaNs are all there) and only the top VERIF_FMASK mantissa bits; the remaining mantissa bits are zero */
+    {   uint64_t ma = dbits(in_fa) & ~((((uint64_t)1) << (52 - VERIF_FMASK)) - 1), mb = dbits(in_fb) & ~((((uint64_t)1) << (52 - VERIF_FMASK)) - 1);
+        in_fa = *(double *)&ma; in_fb = *(double *)&mb; }
+#endif
+#ifdef VERIF_FEXP
+    /* further bound for * and / : both operands finite NORMAL numbers with unbiased exponent in [-VERIF_FEXP, VERIF_FEXP]
+       (no zeros / subnormals / inf / NaN here: the comparison and +,- obligations and C03.float.DIV.zero cover those classes) */
+    {   int ea = (int)((dbits(in_fa) >> 52) & 0x7ff) - 1023, eb = (int)((dbits(in_fb) >> 52) & 0x7ff) - 1023;
+        __CPROVER_assume(-VERIF_FEXP <= ea && ea <= VERIF_FEXP && -VERIF_FEXP <= eb && eb <= VERIF_FEXP); }
+#endif
     Environment *env = (Environment *)nondet_ptr();
     /* The spec-side operand values are obtained through the SAME path as the interpreter's (literal leaf -> eval_expression ->
        create_float / create_int -> Value), so that `x + y` below and `left.as.float_val + right.as.float_val` in eval.c are ONE
@@ -495,11 +507,15 @@ void h_fop(void)
     __CPROVER_assert(__verif_ev.calls1 == 1 && __verif_ev.seq0 < __verif_ev.seq1, "C03.float operand 1 is evaluated exactly once, after operand 0");
 #endif
 #if !(VERIF_EOP == EOP_DIV && VERIF_DOM == DOM_ZERO)
-#if VERIF_MIX == MIX_FF
+#if VERIF_MIX == MIX_FF && defined(VERIF_FEXP)
+    VERIF_COVER(x < 0.0 && y > 1.0); VERIF_COVER(x * y != y * y);
+#elif VERIF_MIX == MIX_FF
     VERIF_COVER(x != x); VERIF_COVER(y != y);                 /* NaN operands */
     VERIF_COVER(x == 0.0 && dbits(x) != 0);                   /* -0.0 */
     VERIF_COVER(x > 1.0e308 && x == x + x);                   /* +inf */
+#ifndef VERIF_FMASK
     VERIF_COVER(x - y != 0.0 && x - y < 1e-9 && y - x < 1e-9);   /* distinct but closer than any tolerance */
+#endif
 #elif VERIF_MIX == MIX_IF
     VERIF_COVER(y != y); VERIF_COVER(in_a == INT64_MIN); VERIF_COVER(in_a > ((int64_t)1 << 53) && (in_a & 1));   /* int not exactly representable */
 #else
